@@ -41,7 +41,7 @@ fn kernel_echo<S>(storage: &S, ptr: *const libc::c_void, len: u32) -> MaybeUnini
     out
 }
 
-//@ prop: C16 C13
+//@ prop: C16 C13 C01
 //@ tier: quick
 //@ what: SocketAddrV4: into_storage -> as_ptr is exactly (storage, sizeof sockaddr_in), family AF_INET, sin_zero zero -> init of the echoed bytes == original; as_mut_ptr length == sizeof
 //@ bound: all 2^32 addresses x 2^16 ports
@@ -64,7 +64,7 @@ fn c16_ipv4_roundtrip() {
     kani::cover!(a.port() == 0x1234);
 }
 
-//@ prop: C16 C13
+//@ prop: C16 C13 C01
 //@ tier: quick
 //@ what: SocketAddrV6: pair is exactly (storage, sizeof sockaddr_in6 = 28), family AF_INET6; ip, port, flowinfo and scope id survive the round trip
 //@ bound: all addresses, ports, flow labels, scope ids
@@ -79,15 +79,15 @@ fn c16_ipv6_roundtrip() {
     assert!(s.sin6_family == libc::AF_INET6 as libc::sa_family_t);
     assert!(s.sin6_addr.s6_addr == a.ip().octets());
     let mut echo = kernel_echo(&s, p, l);
-    let (_, ml) = unsafe { SocketAddrV6::as_mut_ptr(&mut echo) };
-    assert!(ml == 28);
+    let (mp, ml) = unsafe { SocketAddrV6::as_mut_ptr(&mut echo) };
+    assert!(mp == echo.as_mut_ptr().cast() && ml == 28);
     let b = unsafe { SocketAddrV6::init(echo, l) };
     assert!(a == b);
     assert!(a.flowinfo() == b.flowinfo() && a.scope_id() == b.scope_id());
     kani::cover!(a.flowinfo() != 0 && a.scope_id() != 0);
 }
 
-//@ prop: C16 C13
+//@ prop: C16 C13 C01
 //@ tier: quick
 //@ what: SocketAddr (either family): the length handed to the kernel is 16 for V4 and 28 for V6 (never the 28-byte storage for a V4 address), receive buffer is the full storage, and init with the length the kernel reports for that family restores the address
 //@ bound: all V4 and V6 addresses
@@ -101,8 +101,8 @@ fn c16_ip_either_roundtrip() {
     let want = if a.is_ipv4() { 16 } else { 28 };
     assert!(l == want, "length covers exactly the structure of the address family");
     let mut echo = kernel_echo(&s, p, l);
-    let (_, ml) = unsafe { SocketAddr::as_mut_ptr(&mut echo) };
-    assert!(ml == 28, "receive buffer is the whole storage");
+    let (mp, ml) = unsafe { SocketAddr::as_mut_ptr(&mut echo) };
+    assert!(mp == echo.as_mut_ptr().cast() && ml == 28, "receive buffer is the whole storage");
     let b = unsafe { SocketAddr::init(echo, l) };
     assert!(a == b);
     kani::cover!(a.is_ipv4());
@@ -265,6 +265,7 @@ fn unix_roundtrip(a: UnixAddr, with_nul: bool) {
     let (back, blen) = kernel_report(&seen, with_nul);
     let mut echo: MaybeUninit<<UnixAddr as SocketAddress>::Storage> = MaybeUninit::zeroed();
     let (mp, ml) = unsafe { <UnixAddr as SocketAddress>::as_mut_ptr(&mut echo) };
+    assert!(mp.cast::<u8>() == echo.as_mut_ptr().cast::<u8>(), "receive pointer is the storage");
     assert!(ml as usize >= SUN_LEN, "receive buffer holds a whole sockaddr_un");
     unsafe { std::ptr::copy_nonoverlapping(back.as_ptr(), mp.cast::<u8>(), blen as usize) };
     let b = unsafe { <UnixAddr as SocketAddress>::init(echo, blen) };
@@ -315,7 +316,7 @@ fn c16_unix_abstract() {
     kani::cover!(n == 0);
 }
 
-//@ prop: C16 C13
+//@ prop: C16 C13 C01
 //@ tier: quick
 //@ what: Unix unnamed address: handed to the kernel as an unnamed address (length 2, not a 108-byte abstract name of NULs) and read back from length 2 as unnamed
 //@ bound: single value
